@@ -11,7 +11,7 @@ Proof. vm_compute. reflexivity. Qed.
 
 (* the inventory is not empty or degenerate: the clone-side classes are populated *)
 Lemma inventory_populated :
-  (20 <= count_class ClonedLevel ast_write_sites)%nat /\ (20 <= count_class OwnedField ast_write_sites)%nat /\
+  (20 <= count_class ClonedLevel ast_write_sites)%nat /\ (15 <= count_class OwnedField ast_write_sites)%nat /\
   (5 <= count_class OwnedSlice ast_write_sites)%nat.
 Proof. vm_compute. repeat split; repeat constructor. Qed.
 
@@ -20,4 +20,12 @@ Proof. vm_compute. repeat split; repeat constructor. Qed.
 Lemma json_default_export_rewrite_is_on_a_clone :
   existsb (fun s => String.eqb (ws_lhs s) "objectClone.Properties[i].ValueOrNil" &&
                     negb (is_shared (ws_class s))) ast_write_sites = true.
+Proof. vm_compute. reflexivity. Qed.
+
+(* the CSS layer merge appends to a slice that may be a cached AST's layer list
+   only after re-creating it: the inventory sees the re-creation *)
+Lemma css_layer_merge_after_recreation :
+  existsb (fun s => String.eqb (ws_lhs s)
+     "wipOrder[prevIndex].layers = append(prev.layers, entry.layers...) {after a conditional re-creation of prev.layers}")
+    ast_write_sites = true.
 Proof. vm_compute. reflexivity. Qed.
